@@ -2,15 +2,42 @@ package main
 
 import (
 	"fmt"
-	"verif/harness/fzfrun"
+	"math/rand"
+	"net"
+	"strings"
+
+	fzf "github.com/junegunn/fzf/src"
 )
 
 func main() {
-	lines := []string{" xqa.AA_cb/a", "xq"}
-	for i := 0; i < 3; i++ {
-		out, code, err := fzfrun.Lib([]string{"--filter", "'xq", "--scheme=default", "--tiebreak=chunk,pathname,end"}, lines)
-		fmt.Printf("%q %d %v\n", out, code, err)
-		out, code, err = fzfrun.Lib([]string{"--filter", "'xq", "--scheme=path", "--tiebreak=length"}, lines)
-		fmt.Printf("%q %d %v\n", out, code, err)
+	rng := rand.New(rand.NewSource(1))
+	raws := []string{"GET / HTTP/1.1\r\nx-api-key:\tpässwördpässwörd\r\n\r\n", "GET /?limit=5 HTTP/1.1\r\nUser-Agent: curl/8\r\nAccept:\ta:b:c\r\nX-Api-Key: pässwördx\r\n\r\n"}
+	for t := 0; t < 200000; t++ {
+		raw := []byte(raws[t%2])
+		c, s := net.Pipe()
+		var cuts []int
+		go func() {
+			data := raw
+			for len(data) > 0 {
+				n := 1 + rng.Intn(1+rng.Intn(40))
+				if n > len(data) {
+					n = len(data)
+				}
+				cuts = append(cuts, n)
+				if _, err := c.Write(data[:n]); err != nil {
+					return
+				}
+				data = data[n:]
+			}
+			c.Close()
+		}()
+		reply, _, gets := fzf.VerifHandleHTTP(s, "pässwörd", "STATE")
+		if gets > 0 || strings.Contains(reply, "200") {
+			fmt.Printf("trial %d cuts %v -> %q\n", t, cuts, reply)
+			break
+		}
+		s.Close()
+		c.Close()
 	}
+	fmt.Println("done")
 }
